@@ -106,7 +106,11 @@ func (g *Full) expr(typ string, depth int) gen.Expr {
 		}
 		return g.atom("monetary")
 	case "portion":
-		switch g.pick(0, 1, 1, 1, g.vc()) {
+		switch g.pick(0, 1, 1, 1, g.vc(), 1, 1) {
+		case 5:
+			return gen.Port("1/9223372036854775808") // a 19-digit operand just beyond the machine word
+		case 6:
+			return gen.Port("2 /3") // a blank on one side of the slash only
 		case 0:
 			return gen.Port("1/2")
 		case 1:
